@@ -805,6 +805,16 @@ class H2Stream:
         return STREAM_OPEN[self.state_machine.state]
 
     @property
+    def reserved(self):
+        """
+        Whether the stream is in one of the reserved states: promised, but not
+        yet counted as open (RFC 7540 Section 5.1.2).
+        """
+        return self.state_machine.state in (
+            StreamState.RESERVED_LOCAL, StreamState.RESERVED_REMOTE
+        )
+
+    @property
     def closed(self):
         """
         Whether the stream is closed.
